@@ -12,10 +12,14 @@ BadPool == {D("ccr", TRUE, 0, "none", FALSE), D("recovery", FALSE, 1, "bad", FAL
 NodePool == {D("gc", TRUE, 1, "none", FALSE), D("gc", FALSE, 1, "none", FALSE), I("diskio"), I("startup"), I("jvm"), D("ccr", TRUE, 1, "none", FALSE)}
 Seqs(set, n) == UNION {[1..m -> set] : m \in 1..n}
 
+SubPool == {D("ccr", TRUE, 1, "none", FALSE), D("recovery", TRUE, 2, "none", FALSE), D("transform", TRUE, 3, "c2", FALSE),
+            D("nodestats", TRUE, 1, "none", TRUE), I("jvm"), I("ingest")}
 SimScenarios ==
-    {S(dv, 2, "off", cm, ne, p) : dv \in Seqs(Pool, 3), cm \in BOOLEAN, ne \in 0..2, p \in {Bench, Bench, <<"bstop">>, <<"bstart">>}}
+    {S(dv, 2, "off", cm, ne, p) : dv \in Seqs(Pool, 2) \cup [1..3 -> SubPool], cm \in BOOLEAN, ne \in 0..2, p \in {Bench, <<"bstop">>, <<"bstart">>}}
     \cup {S(dv, 2, "off", TRUE, 1, Bench) : dv \in Seqs(Pool \cup BadPool, 2)}
     \cup {S(dv, 1, sls, TRUE, 1, Bench) : dv \in Seqs({d \in Pool : d.idx # "c2"}, 2), sls \in {"user", "operator"}}
+NodePool4 == {D("gc", TRUE, 1, "none", FALSE), D("gc", FALSE, 1, "none", FALSE), I("diskio"), I("startup")}
 SimScenariosNode ==
-    {S(dv, 1, "off", cm, 1, p) : dv \in Seqs(NodePool, 3), cm \in BOOLEAN, p \in SubSeqs(CB) \ {<<>>}}
+    {S(dv, 1, "off", cm, 1, p) : dv \in [1..3 -> NodePool4] \cup {<<D("ccr", TRUE, 1, "none", FALSE), I("startup"), I("diskio")>>, <<I("jvm"), D("gc", TRUE, 1, "none", FALSE), I("diskio")>>},
+                                 cm \in BOOLEAN, p \in (SubSeqs(NodeLife) \ {<<>>}) \cup {CB}}
 =============================================================================
